@@ -39,6 +39,8 @@ func runC06(ctx *Ctx) {
 	}
 	ruleLockBalance(ctx, "C06-R6", handlerScope)
 	ruleLockContracts(ctx, "C06-R6c", func(n string) bool { return strings.HasPrefix(n, "rpc.(*answer).") || n == "rpc.(*Conn).newReturn" })
+	ruleMarkBeforeSend(ctx, "C06-R7")
+	ruleStaleGuardedRead(ctx, "C06-R8", rpcScope)
 	r := ctx.Rep
 	r.Floor("C06-R1", 10)
 	r.Floor("C06-R2", 6)
@@ -46,6 +48,8 @@ func runC06(ctx *Ctx) {
 	r.Floor("C06-R4", 6)
 	r.Floor("C06-R5", 3)
 	r.Floor("C06-R6", 15)
+	r.Floor("C06-R7", 1)
+	r.Floor("C06-R8", 3)
 }
 
 func ruleSingleDispatcher(ctx *Ctx, rule string) {
@@ -410,4 +414,60 @@ func ruleAnswerIDValidation(ctx *Ctx, rule string) {
 	if n < 3 {
 		r.Fail("%s: expected at least 3 insertions into Conn.answers, found %d", rule, n)
 	}
+}
+
+// ruleMarkBeforeSend is C06-R7: a pipelined call records its transform in the
+// target question ("Mark this transform as having been used for a call ASAP.
+// q's Return could be received while q2 is being sent") before Conn.mu is
+// released for the first time and before any transport operation.
+func ruleMarkBeforeSend(ctx *Ctx, rule string) {
+	a := lockAnalysis(ctx)
+	if a == nil {
+		return
+	}
+	u := mustUnit(ctx, a, rule, "rpc.(*question).PipelineSend")
+	if u == nil {
+		return
+	}
+	info := u.Pkg.TypesInfo
+	cMu := a.Sem.ClassByName("rpc.Conn.mu")
+	isMark := func(n ast.Node) bool { return isCallNamed(info, n, "rpc.(*question).mark") }
+	isRelease := func(n ast.Node) bool {
+		c, ok := n.(*ast.CallExpr)
+		if !ok {
+			return false
+		}
+		if isCallNamed(info, c, "rpc.(Transport).NewMessage") {
+			return true
+		}
+		if calleeName(info, c) == "sync.(*Mutex).Unlock" && a.Sem.ClassOf(fieldOfSelRecv(info, c)) == cMu {
+			// the unlock on the not-started early return does not publish anything
+			return true
+		}
+		return false
+	}
+	if len(u.Find(isMark)) == 0 {
+		ctx.Rep.Violation(rule, "PipelineSend | transform marked before Conn.mu is released", ctx.Prog.Rel(u.Pos), "PipelineSend no longer marks the transform as called: no embargo is set up for capabilities the pipelined call targets")
+		return
+	}
+	// after startTask succeeded: the first release of Conn.mu / first transport op must come after mark
+	var start flow.Point
+	found := false
+	for _, p := range u.Find(func(n ast.Node) bool { return isCallNamed(info, n, "rpc.(*Conn).startTask") }) {
+		if cond, ok := p.B.Nodes[p.I].(ast.Expr); ok {
+			if t, f, ok := u.BranchEdges(cond); ok {
+				start = t
+				if ue, isNot := ast.Unparen(cond).(*ast.UnaryExpr); isNot && ue.Op == token.NOT {
+					start = f
+				}
+				found = true
+			}
+		}
+	}
+	if !found {
+		start = u.Entry()
+	}
+	noPathCheck(ctx, a, rule, "PipelineSend | transform marked before Conn.mu is released", u, start, u.Pos, isRelease, isMark,
+		"Conn.mu can be released (or the call message created) before the transform is marked as called: a Return for the target question handled in that window sets up no embargo, and a later call can overtake the pipelined one",
+		"q.mark(transform) is passed on every path before Conn.mu is first released or a message is created")
 }
